@@ -228,7 +228,37 @@ def extra_dims(draw, maxdims=3, maxsize=3, allow=("time", "site", "lat", "lon"))
     return sizes
 
 
-def build_dataarray(fg, dg, specs, dims, dtype="float64", winds=None):
+def lived():
+    """Strategy for the `lived` field of a case: mostly None (a fresh object), else a small integer (see live_a_life)."""
+    from hypothesis import strategies as st
+
+    return st.one_of(st.none(), st.none(), st.none(), st.integers(0, 8))
+
+
+def live_a_life(da, k):
+    """Give a freshly built object a past: statistics are taken through its accessor while it holds other frequencies,
+    directions and values, then the real ones are put back *in place on the same object*. Its contents end up exactly
+    what they were, so every statement about results must hold for it as for a fresh object."""
+    f, vals = da.freq.values.copy(), da.values.copy()
+    d = da.dir.values.copy() if "dir" in da.dims else None
+    if f.size > 1:
+        da["freq"] = f * [0.5, 1.25, 2.0][k % 3] if k < 6 else f ** 2 / f[0]
+    if d is not None:
+        da["dir"] = (d + [90.0, 37.0, 181.0][k // 3 % 3]) % 360.0
+    da.values = vals * 3.0
+    for m in ("hs", "tp", "tm01", "tm02", "momf", "sw") + (("dm", "dp", "dspr", "dpm") if d is not None else ()):
+        try:
+            np.asarray(getattr(da.spec, m)())
+        except Exception:  # noqa: BLE001 - these calls are only there to leave traces
+            pass
+    da["freq"] = f
+    if d is not None:
+        da["dir"] = d
+    da.values = vals
+    return da
+
+
+def build_dataarray(fg, dg, specs, dims, dtype="float64", winds=None, lived=None):
     """DataArray (*dims, freq, dir) in C order. `specs`: one spectrum spec per position (row-major)."""
     import pandas as pd
     import xarray as xr
@@ -263,6 +293,8 @@ def build_dataarray(fg, dg, specs, dims, dtype="float64", winds=None):
     else:
         data = arr.reshape(shape + [nf])
     da = xr.DataArray(np.ascontiguousarray(data), coords=coords, dims=names, name="efth")
+    if lived is not None:
+        live_a_life(da, lived)
     return da
 
 
